@@ -430,3 +430,60 @@ func BigStr(x *big.Int) string {
 	}
 	return s
 }
+
+// ------------------------------------------------------ invariant walker
+
+// WordBase is the decimal word base 10^19.
+const WordBase = 10000000000000000000
+
+const wordBase = WordBase
+
+// Canonical checks the representation invariant of C08 on one value through the
+// public accessors; it returns "" when the value is canonical.
+func Canonical(d *decimal.Decimal) string {
+	if md := int(d.Mode()); md < 0 || md > 5 {
+		return fmt.Sprintf("rounding mode %d is not one of the six modes", md)
+	}
+	if a := int(d.Acc()); a < -1 || a > 1 {
+		return fmt.Sprintf("accuracy %d is not Below/Exact/Above", a)
+	}
+	m, _ := d.BitsExp()
+	if d.IsInf() || d.IsZero() {
+		if d.IsInf() && d.IsZero() {
+			return "value claims to be both zero and infinite"
+		}
+		if len(m) != 0 {
+			return "zero/infinity exposes a mantissa"
+		}
+		if d.MinPrec() != 0 {
+			return fmt.Sprintf("zero/infinity has MinPrec %d", d.MinPrec())
+		}
+		if e := d.MantExp(nil); e != 0 {
+			return fmt.Sprintf("zero/infinity has MantExp %d", e)
+		}
+		return ""
+	}
+	if len(m) == 0 {
+		return "finite value with an empty mantissa"
+	}
+	for i, w := range m {
+		if uint64(w) >= wordBase {
+			return fmt.Sprintf("mantissa word %d = %d is not below the word base", i, uint64(w))
+		}
+	}
+	top := uint64(m[len(m)-1])
+	if top < wordBase/10 {
+		return fmt.Sprintf("leading mantissa word %d has a zero leading digit (not normalized)", top)
+	}
+	mp := d.MinPrec()
+	if mp < 1 {
+		return "finite value with MinPrec 0"
+	}
+	if d.Prec() == 0 {
+		return "finite value with precision 0"
+	}
+	if mp > d.Prec() {
+		return fmt.Sprintf("MinPrec %d exceeds Prec %d (digits beyond the precision)", mp, d.Prec())
+	}
+	return ""
+}
